@@ -45,6 +45,21 @@ def make_case(rng, ops=ALLOPS, depth=None, storages=("local", "array")):
         expr = [rng.choice([o for o in ("abs", "neg") if o in ops]), leaf]
         if rng.random() < 0.3:
             expr = [rng.choice(["+", "-", "|"]), expr, exprs.rand_leaf(rng, [n for n, _, _ in decls[:-1]], regs)]
+    if rng.random() < 0.08 and any(o in ops for o in (">>", "//", "%")):
+        # a constant with the top bit set (an all-ones mask, the sign bit as a flag) combined with an UNSIGNED 64-bit operand, the
+        # result feeding an operation whose meaning depends on signedness
+        qs = [n for n, _, f in decls[:-1] if f == "Q"]
+        if not qs:
+            decls.insert(0, ("vq", rng.choice(storages), "Q"))
+            values["vq"] = rng.choice([0x123456789abcdef0, 2 ** 64 - 1, 5, rng.randrange(2 ** 64)])
+            qs = ["vq"]
+        U = ["v", rng.choice(qs)]
+        K = ["c", rng.choice([2 ** 64 - 1, 2 ** 63, 2 ** 64 - 16, 2 ** 63 + rng.randrange(2 ** 62), 0xff00000000000000])]
+        inner = [rng.choice([o for o in ("^", "|", "&", "+", "-", "*") if o in ops] or ["+"]), U, K]
+        if rng.random() < 0.3:
+            inner = [inner[0], K, U]
+        outer = rng.choice([o for o in (">>", "//", "%") if o in ops])
+        expr = [outer, inner, ["c", rng.choice([1, 4, 31, 33, 63]) if outer == ">>" else rng.choice([3, 7, 1000, 2 ** 31 - 1])]]
     case = {"decls": decls, "values": values, "reginit": reginit, "regs": regs, "expr": expr, "dest": "d"}
     if rng.random() < 0.15:
         # the destination is a register; in most of these cases the expression reads that register itself
